@@ -46,6 +46,15 @@ STRENGTHENED = {
  "C17-m23": "missed at first, as a harness build failure: the erased selector impls gained a bound on the error type that the harness's own error type does not satisfy; the compile-time flavour probe now also instantiates every (trait x pointer x auto-trait) flavour with a user-defined error type (280 functions) and reports a rejected one as C17/flavour-not-supported before the harness is built",
  "C18-m24": "missed at first: collection elements always carried data; collections of zero-sized elements (unit, a marker struct) must now have exactly the requested length with the generator asked exactly that often (a fill loop steered by capacity never ends for them)",
  "C19-m23": "missed at first: the overflow error of an over-long program was only looked at for programs given as PushProgram values; the same program is now also given as PushInstruction and IntInstruction values and all three must report the same error",
+ "C01-m26": "missed at first (the check ended INCONCLUSIVE): the setter of a stack's maximum reserved that much memory, and the harness calls it itself - when assembling the initial state and when lifting the limits to probe the inputs - outside any monitored call. Both are monitored calls now: a panic while assembling a legal state is C01/initial-state/builder-panicked, a panic while lifting a limit shows as an input mismatch, a death is attributed by the supervisor",
+ "C05-m26": "missed at first: long genomes were deep ones; genomes of 100000 to a million genes with nesting depth <= 2 are now translated too (a translation that clones the remaining genes per gene is quadratic and is reported as C05/hang)",
+ "C06-m26": "missed at first: tournament sizes went a few past the population; sizes of 2^32+1, 2^40, 2^60 and usize::MAX on small populations must report the documented size error, nothing being reserved after them",
+ "C07-m26": "missed at first: populations had at most 100 members; tournaments of 1, 2, 7, n/2+1, 0.9n, n-1 and n members are now drawn from 5000 and 500000 distinct values (a sampler that redraws on collisions needs n^2 log n draws for k = n-1)",
+ "C10-m26": "missed at first: parents had at most 1000 genes; complementary parents of 2^22 genes are now recombined by both operators in both flavours (same length, one contiguous segment / a fair share from each parent)",
+ "C11-m26": "missed at first: long genomes were only flipped at rate 0 and by the 1/length mutator; three million genes are now flipped at rates 0, 0.5 and 1 in both flavours",
+ "C12-m26": "missed at first: UMAD rates were measured on at most 40 genes; deletion and addition frequencies are now also measured on a two-million-gene parent",
+ "C14-m26": "missed at first: inputs to a repetition were small; an input that owns 1 GiB (its clone reserves without touching) is now repeated 64 times under the supervisor's address-space limit - holding all copies at once exceeds it and is reported as C14/aborted",
+ "C19-m26": "missed at first: only value lists were supplied lazily with an astronomic announced length; programs are now too (a mapped range, repeat_n of an instruction, a macro fixture)",
  "C15-m10": "missed at first: copies were never made through clone_from; EcIndividual and TestResults are now also copied with clone_from and Vec::clone_from (overwriting existing elements) and must equal their source",
  "C16-m9": "missed at first, as a harness build failure: the change adds Send + Sync bounds to Map's Vec impl, which C14's Rc-based probes do not satisfy, and all ec monitors lived in one binary. Every property now has its own binary, and C16's registry maps an operator over vectors of up to 2049 genomes",
  "C17-m10": "missed at first: the member errors used behind DynWeighted had no cause chain; a member whose error has a two-level source chain is now used and the whole chain must be reachable through source() from what the list reports",
